@@ -117,6 +117,10 @@ class ProxiedCircuit(Circuit):
         if message.finalized:
             raise RuntimeError(f"Trying to drop finalized {message!r}")
         if message.packet_id is None:
+            # Never was on the wire (taken copy, unsent injected message): nothing to
+            # ack or to track, but it's dropped for good like any other message
+            message.dropped = True
+            message.finalized = True
             return
         fwd_injections, reverse_injections = self._get_injections(message.direction)
 
